@@ -203,6 +203,9 @@ func genNilpatRandom(r *rand.Rand, tier string) string {
 		if !top && r.Intn(12) == 0 {
 			opt |= fRO
 		}
+		if r.Intn(8) == 0 {
+			opt |= fNNest // set after the content is in place: what is nested stays nested, and is compacted
+		}
 		st := patStack(pat, opt, kinds(r))
 		if !top {
 			st.Form = []string{"n", "n", "n", "a", "as", "p"}[r.Intn(6)]
